@@ -422,6 +422,7 @@ func (h *Harness) wideCounters(w Workload, wr *WlRun) {
 			}
 		}
 		r.Hit(fmt.Sprintf("wide:rollover:data-files-at-the-end=%d", n))
+		h.rollTie(w, wr)
 	}
 }
 
